@@ -6,4 +6,7 @@ export CARGO_NET_OFFLINE=true
 export CARGO_TARGET_DIR="$(pwd)/target"
 cargo build --release --offline --manifest-path harness/Cargo.toml
 ./target/release/hv selftest | python3 py/check_big.py
+# ThreadSanitizer variant for C17 (best effort: C17 notes it when the sanitizer pass is skipped)
+RUSTFLAGS="-Zsanitizer=thread" CARGO_TARGET_DIR="$(pwd)/target-tsan" cargo +nightly build -Zbuild-std --target x86_64-unknown-linux-gnu \
+  --release --offline --manifest-path harness/Cargo.toml || echo "warning: ThreadSanitizer build failed"
 echo "setup ok"
